@@ -17,6 +17,7 @@ def run(ctx):
     ctx.extra["exports_that_raised"] = len(errors)
     tl.check(ctx, "DrawC09.cfg", recs, "C09_")
     frame_conformance(ctx, recs)
+    render_conformance(ctx, recs)
     ctx.evaluations += 2 * len(recs)
     ctx.nontrivial += len({r["svg"]["sha"] for r in recs if max(n["layer"] for n in r["svg"]["nodes"]) > 0 or r["svg"]["n"] >= 2})
     small = [r for r in recs if r["svg"]["n"] <= 2]
@@ -38,6 +39,28 @@ def frame_conformance(ctx, recs):
                                             "spec_drift": len(drift), "clauses": sorted({inv for i, inv in res})}
     if drift:
         ctx.notes.append("spec drift: %d exports do not have the document frame of spec/Frame.tla (%s)"
+                         % (len(drift), ", ".join(sorted({inv for i, inv in res}))))
+
+
+def render_conformance(ctx, recs):
+    """spec/Render.tla: the printed origin of every box and every point of every link path (Bezier control points included) as the
+    operational model of renderer.py / Timeline.nodePos predicts them from the layout.  Drift only."""
+    keys = ("dir", "gap5", "nodeH5", "nodes", "boxes", "links")
+    sub = [{"svg": {k: ([{"pts5": l["pts5"]} for l in r["svg"][k]] if k == "links" else r["svg"][k]) for k in keys},
+            "tikz": {k: ([{"pts5": l["pts5"]} for l in r["tikz"][k]] if k == "links" else r["tikz"][k]) for k in keys}}
+           for r in recs if max(abs(c) for b in ("svg", "tikz") for n in r[b]["nodes"] for c in n["chain5"] + [n["ideal5"]]) < 500000000]
+    try:
+        res, st = core.validate_records("Render", "RenderDrift.cfg", sub, per_shard=120, heap="3g")
+    except core.MachineryError as ex:
+        ctx.notes.append("render model conformance not evaluated: %s" % str(ex)[:300])
+        return
+    ctx.states += st["distinct"]
+    ctx.transitions += st["generated"]
+    drift = sorted({i for i, inv in res})
+    ctx.extra["render_model_conformance"] = {"exports_compared": len(sub), "boxes_and_link_points_as_Render.tla": len(sub) - len(drift),
+                                             "spec_drift": len(drift), "clauses": sorted({inv for i, inv in res})}
+    if drift:
+        ctx.notes.append("spec drift: %d exports are not drawn as spec/Render.tla predicts (%s)"
                          % (len(drift), ", ".join(sorted({inv for i, inv in res}))))
 
 
